@@ -55,8 +55,10 @@ type Term struct {
 	Name string // OpVar
 	ID   int
 	// variable dependency summary
-	uvar  *Term // the unique variable this term depends on, if exactly one
-	nvars int   // 0, 1, or 2 (=many)
+	uvar  *Term // the first variable this term depends on (nvars 1 or 2)
+	uvar2 *Term // the second variable (nvars == 2)
+	nvars int   // 0, 1, 2, or 3 (= three or more)
+	tab2  *[256][4]uint64 // cache: truth table over (uvar, uvar2) for Bool terms with two 8-bit variables
 	// cache: truth set over the unique 8-bit variable (Bool terms) or value table (bv terms)
 	truth *[4]uint64
 	vals  *[256]uint64
@@ -128,13 +130,31 @@ func (c *TermCtx) mk(op Op, w uint8, args []*Term, val uint64, name string) *Ter
 		t.uvar, t.nvars = t, 1
 	case OpConst:
 	default:
-		for _, a := range args {
+		add := func(v *Term) {
 			switch {
-			case a.nvars == 0:
-			case a.nvars == 1 && (t.nvars == 0 || (t.nvars == 1 && t.uvar == a.uvar)):
-				t.nvars, t.uvar = 1, a.uvar
+			case t.nvars >= 3 || v == nil:
+			case t.nvars == 0:
+				t.nvars, t.uvar = 1, v
+			case t.uvar == v || t.uvar2 == v:
+			case t.nvars == 1:
+				t.nvars, t.uvar2 = 2, v
+				if t.uvar2.ID < t.uvar.ID {
+					t.uvar, t.uvar2 = t.uvar2, t.uvar
+				}
 			default:
-				t.nvars, t.uvar = 2, nil
+				t.nvars, t.uvar, t.uvar2 = 3, nil, nil
+			}
+		}
+		for _, a := range args {
+			if a.nvars >= 3 {
+				t.nvars, t.uvar, t.uvar2 = 3, nil, nil
+				break
+			}
+			if a.nvars >= 1 {
+				add(a.uvar)
+			}
+			if a.nvars == 2 {
+				add(a.uvar2)
 			}
 		}
 	}
@@ -395,6 +415,35 @@ func (c *TermCtx) Cmp(op Op, a, b *Term) *Term {
 		case OpEq, OpUle, OpSle:
 			return c.True
 		default:
+			return c.False
+		}
+	}
+	switch op {
+	case OpUlt:
+		if b.IsConst() && umax(a) < b.Val {
+			return c.True
+		}
+		if a.IsConst() && a.Val >= umax(b) {
+			return c.False
+		}
+		if b.IsConst() && b.Val == 0 {
+			return c.False
+		}
+	case OpUle:
+		if b.IsConst() && umax(a) <= b.Val {
+			return c.True
+		}
+		if a.IsConst() && a.Val > umax(b) {
+			return c.False
+		}
+		if a.IsConst() && a.Val == 0 {
+			return c.True
+		}
+	case OpEq:
+		if b.IsConst() && b.Val > umax(a) {
+			return c.False
+		}
+		if a.IsConst() && a.Val > umax(b) {
 			return c.False
 		}
 	}
@@ -760,4 +809,132 @@ func (t *Term) String() string {
 		parts[i] = a.String()
 	}
 	return "(" + opNames[t.Op] + " " + strings.Join(parts, " ") + ")"
+}
+
+// umax returns an upper bound of t read as an unsigned number.
+func umax(t *Term) uint64 {
+	switch t.Op {
+	case OpConst:
+		return t.Val
+	case OpZExt:
+		return umax(t.Args[0])
+	case OpAnd:
+		a, b := umax(t.Args[0]), umax(t.Args[1])
+		if a < b {
+			return a
+		}
+		return b
+	case OpLShr:
+		if t.Args[1].IsConst() && t.Args[1].Val < 64 {
+			return umax(t.Args[0]) >> t.Args[1].Val
+		}
+		return umax(t.Args[0])
+	case OpURem:
+		if t.Args[1].IsConst() && t.Args[1].Val > 0 {
+			return t.Args[1].Val - 1
+		}
+	case OpIte:
+		a, b := umax(t.Args[1]), umax(t.Args[2])
+		if a > b {
+			return a
+		}
+		return b
+	case OpOr, OpXor:
+		a, b := umax(t.Args[0]), umax(t.Args[1])
+		if a < b {
+			a = b
+		}
+		// next power of two minus one
+		for i := uint(1); i < 64; i <<= 1 {
+			a |= a >> i
+		}
+		return a & mask(t.W)
+	}
+	return mask(t.W)
+}
+
+// IsBinary8 reports whether t depends on exactly two variables, both 8 bits wide.
+func (t *Term) IsBinary8() bool {
+	return t.nvars == 2 && t.uvar.W == 8 && t.uvar2.W == 8
+}
+
+// Table2 returns, for a Bool term over two 8-bit variables (a=uvar, b=uvar2), the set of b
+// values satisfying it for each value of a.
+func (t *Term) Table2() *[256][4]uint64 {
+	if t.tab2 != nil {
+		return t.tab2
+	}
+	memo := map[*Term]*[65536]uint64{}
+	full := eval2(t, t.uvar, t.uvar2, memo)
+	var out [256][4]uint64
+	for x := 0; x < 256; x++ {
+		for y := 0; y < 256; y++ {
+			if full[x<<8|y] != 0 {
+				out[x][y>>6] |= 1 << (uint(y) & 63)
+			}
+		}
+	}
+	t.tab2 = &out
+	return t.tab2
+}
+
+func eval2(t, a, b *Term, memo map[*Term]*[65536]uint64) *[65536]uint64 {
+	if r, ok := memo[t]; ok {
+		return r
+	}
+	out := new([65536]uint64)
+	switch {
+	case t.nvars == 0:
+		for i := range out {
+			out[i] = t.Val
+		}
+	case t.nvars == 1:
+		var tab *[256]uint64
+		if t.uvar.W == 8 {
+			tab = t.ValTable()
+		}
+		if t.uvar == a {
+			for x := 0; x < 256; x++ {
+				v := tab[x]
+				for y := 0; y < 256; y++ {
+					out[x<<8|y] = v
+				}
+			}
+		} else {
+			for x := 0; x < 256; x++ {
+				for y := 0; y < 256; y++ {
+					out[x<<8|y] = tab[y]
+				}
+			}
+		}
+	default:
+		var as [3]*[65536]uint64
+		for i, arg := range t.Args {
+			as[i] = eval2(arg, a, b, memo)
+		}
+		w := t.W
+		if t.Op >= OpEq && t.Op <= OpSle {
+			w = 0
+		}
+		var aw uint8
+		if len(t.Args) > 0 {
+			aw = t.Args[0].W
+		}
+		switch len(t.Args) {
+		case 1:
+			for i := range out {
+				out[i] = evalOp(t.Op, w, aw, as[0][i], 0, 0)
+			}
+		case 2:
+			for i := range out {
+				out[i] = evalOp(t.Op, w, aw, as[0][i], as[1][i], 0)
+			}
+		case 3:
+			for i := range out {
+				out[i] = evalOp(t.Op, w, aw, as[0][i], as[1][i], as[2][i])
+			}
+		}
+	}
+	memo[t] = out
+	return out
 }
